@@ -1,146 +1,68 @@
 import Slock.Proofs.ValuePanic
 /-!
-C13 (pure part, value frames): no bytes a client can put into a data frame make `NewLockCommandDataFromOriginBytes` +
-`LockManager.ProcessLockData` panic.  Full statement wanted:
-    ∀ cx cur frame, isPanic (processFrame cx cur frame) = false
-FALSE for the unchanged code: see the `…_panics` theorems (each replayed on the real functions by the harness monitors).
-The `no_panic_…` theorems state, for ALL byte lists, the input classes on which the modelled functions provably never panic —
-the hypotheses are exactly the guards the Go code lacks.  `cmdOfBytes frame` is the decoded view of the raw bytes
-(stage = frame[4] >> 6, op = frame[4] & 0x3f, flag = frame[5]); `OffsetOK c` = the property-header length (if flagged) can be
-read and the value offset lies inside the frame.
+C13 (pure part, value frames): no bytes a client can put into a data frame make `ProcessParseLockData` +
+`LockManager.ProcessLockData` panic (repaired tree: commits 570db92, da807c1, 076286b, f7f91cc, 639fbf7, f897b3e).
+
+    ∀ cx frames,  isPanic (runAll cx none frames) = false          (`no_panic_run`)
+
+for ALL lists of ALL byte strings, every request context (lock / unlock, flags, undo record or not), every operation,
+PIPELINE nesting included.  The proof goes through the invariant `CellSane` (the stored cell has its 6 header bytes and a
+property header that fits): the parser's refusal rule establishes it for every frame it lets through (`CmdSane`), every
+operation preserves it and cannot panic under it (`no_panic` / `sane_preserved`).
+Scope: the functions modelled in `Slock.Model.Value`; EXECUTE's `DecodeLockCommand` beyond its value-offset access and the
+undo path `ProcessRecoverLockData` are outside the model.
 -/
 namespace Slock.C13V
 open Slock.Value
 
-/-- decoding the frame header never panics on ≥ 6 bytes … -/
-theorem no_panic_frame_header (frame : Bytes) (h : 6 ≤ frame.length) : isPanic (fromOriginBytes frame []) = false := by
-  rw [fromOriginBytes_ok frame h]; rfl
+/-- One frame, arbitrary bytes, on any sane cell: no panic, and the new cell is sane again. -/
+theorem no_panic (cx : Ctx) (cur : Option Cell) (frame : Bytes) (hcur : CellSane cur) :
+    isPanic (processFrame cx cur frame) = false :=
+  good_no_panic _ (processFrame_good cx cur frame hcur)
 
-/-- … and always panics on fewer (a data frame announcing length 0 or 1). -/
-theorem short_frame_panics (cx : Ctx) (cur : Option Cell) (frame : Bytes) (h : frame.length < 6) :
-    isPanic (processFrame cx cur frame) = true :=
-  processFrame_short_panics cx cur frame h
+theorem sane_preserved (cx : Ctx) (cur : Option Cell) (frame : Bytes) (hcur : CellSane cur) :
+    ∃ cur', processFrame cx cur frame = .ok cur' ∧ CellSane cur' :=
+  processFrame_good cx cur frame hcur
 
-/-- SET, UNSET and unknown op codes (9..63): never panic, whatever the bytes, flags, cell and request context. -/
-theorem no_panic_set_unset_unknown (cx : Ctx) (cur : Option Cell) (frame : Bytes) (h6 : 6 ≤ frame.length)
-    (hop : (cmdOfBytes frame).ctype = SET ∨ (cmdOfBytes frame).ctype = UNSET ∨ 8 < (cmdOfBytes frame).ctype) :
-    isPanic (processFrame cx cur frame) = false := by
-  have hp : (cmdOfBytes frame).ctype ≠ PIPELINE := by
-    rcases hop with h | h | h <;> (rw [PIPELINE]; first | (rw [h]; decide) | omega)
-  rw [processFrame_single cx cur frame h6 hp]
-  cases gate cx (cmdOfBytes frame) with
-  | false => rfl
-  | true =>
-    simp only [if_true, procOp]
-    rcases hop with h | h | h
-    · simp [h, pure, Except.pure, isPanic]
-    · simp [h, SET, UNSET, pure, Except.pure, isPanic]
-    · have h0 : (cmdOfBytes frame).ctype ≠ SET := by rw [SET]; omega
-      have h1 : (cmdOfBytes frame).ctype ≠ UNSET := by rw [UNSET]; omega
-      have h2 : (cmdOfBytes frame).ctype ≠ INCR := by rw [INCR]; omega
-      have h3 : (cmdOfBytes frame).ctype ≠ APPEND := by rw [APPEND]; omega
-      have h4 : (cmdOfBytes frame).ctype ≠ SHIFT := by rw [SHIFT]; omega
-      have h5 : (cmdOfBytes frame).ctype ≠ EXECUTE := by rw [EXECUTE]; omega
-      have h7 : (cmdOfBytes frame).ctype ≠ PUSH := by rw [PUSH]; omega
-      have h8 : (cmdOfBytes frame).ctype ≠ POP := by rw [POP]; omega
-      simp [h0, h1, h2, h3, h4, h5, h7, h8, pure, Except.pure, isPanic]
+/-- Any sequence of arbitrary byte strings, starting from a key without value: no panic. -/
+theorem no_panic_run (cx : Ctx) (frames : List Bytes) : isPanic (runAll cx none frames) = false :=
+  good_no_panic _ (runAll_good cx frames none trivial)
 
-/-- APPEND: no panic when the value offset lies inside the frame and the cell (if any) has its 6 header bytes
-    (every cell the model can produce has). -/
-theorem no_panic_append (cx : Ctx) (cur : Option Cell) (frame : Bytes) (h6 : 6 ≤ frame.length)
-    (hop : (cmdOfBytes frame).ctype = APPEND) (ho : OffsetOK (cmdOfBytes frame))
-    (hcell : ∀ x, cur = some x → 6 ≤ x.data.length) : isPanic (processFrame cx cur frame) = false := by
-  rw [processFrame_single cx cur frame h6 (by rw [hop]; decide)]
-  cases gate cx (cmdOfBytes frame) with
-  | false => rfl
-  | true =>
-    have : procOp cx cur (cmdOfBytes frame) = opAppend cx cur (cmdOfBytes frame) := by simp [procOp, hop, APPEND, SET, UNSET, INCR]
-    simp only [if_true, this]
-    exact opAppend_no_panic cx cur _ ho (by show 5 ≤ frame.length; omega) hcell
+/-- … and from any well-formed cell of the C15 refinement theorems. -/
+theorem no_panic_run_wf (cx : Ctx) (cur : Option Cell) (h : CellWF cur) (frames : List Bytes) :
+    isPanic (runAll cx cur frames) = false :=
+  good_no_panic _ (runAll_good cx frames cur (cellWF_sane cur h))
 
-/-- PUSH: no panic when the value offset lies inside the frame (any cell). -/
-theorem no_panic_push (cx : Ctx) (cur : Option Cell) (frame : Bytes) (h6 : 6 ≤ frame.length)
-    (hop : (cmdOfBytes frame).ctype = PUSH) (ho : OffsetOK (cmdOfBytes frame)) : isPanic (processFrame cx cur frame) = false := by
-  rw [processFrame_single cx cur frame h6 (by rw [hop]; decide)]
-  cases gate cx (cmdOfBytes frame) with
-  | false => rfl
-  | true =>
-    have : procOp cx cur (cmdOfBytes frame) = opPush cx cur (cmdOfBytes frame) := by
-      simp [procOp, hop, APPEND, SET, UNSET, INCR, SHIFT, EXECUTE, PUSH]
-    simp only [if_true, this]
-    exact opPush_no_panic cx cur _ ho h6
+/-- Every operation on a frame the parser lets through, PIPELINE included, at any sufficient recursion budget. -/
+theorem no_panic_process_lock_data (fuel : Nat) (cx : Ctx) (cur : Option Cell) (c : Cmd) (hf : c.data.length < fuel)
+    (hc : CmdSane c) (hcur : CellSane cur) : isPanic (proc fuel cx cur c) = false :=
+  good_no_panic _ (proc_good fuel cx cur c hf hc hcur)
 
-/-- INCR: no panic when the offset is inside the frame and (the operand has exactly 8 bytes or the key has a cell). -/
-theorem no_panic_incr (cx : Ctx) (cur : Option Cell) (frame : Bytes) (h6 : 6 ≤ frame.length)
-    (hop : (cmdOfBytes frame).ctype = INCR) (ho : OffsetOK (cmdOfBytes frame))
-    (h : (∃ off, cmdOff (cmdOfBytes frame) = .ok off ∧ frame.length = off + 8) ∨ cur ≠ none) :
-    isPanic (processFrame cx cur frame) = false := by
-  rw [processFrame_single cx cur frame h6 (by rw [hop]; decide)]
-  cases gate cx (cmdOfBytes frame) with
-  | false => rfl
-  | true =>
-    have : procOp cx cur (cmdOfBytes frame) = opIncr cx cur (cmdOfBytes frame) := by simp [procOp, hop, SET, UNSET, INCR]
-    simp only [if_true, this]
-    exact opIncr_no_panic cx cur _ ho h6 h
+/-- What the parser lets through is sane; the model's recursion budget is never the cause of an error. -/
+theorem parser_establishes_invariant (d ex : Bytes) (c : Cmd) (h : parseFrame d ex = some c) :
+    c.data = d ∧ c.extra = ex ∧ CmdSane c :=
+  parseFrame_sane d ex c h
 
-/-- SHIFT: no panic when the count fits into the VALUE of the cell. -/
-theorem no_panic_shift (cx : Ctx) (cur : Option Cell) (frame : Bytes) (h6 : 6 ≤ frame.length)
-    (hop : (cmdOfBytes frame).ctype = SHIFT) (off : Nat) (hoff : cmdOff (cmdOfBytes frame) = .ok off)
-    (hfit : ∀ x, cur = some x → x.hasData = true → cellOff x.data + readAt frame off 4 ≤ x.data.length) :
-    isPanic (processFrame cx cur frame) = false := by
-  rw [processFrame_single cx cur frame h6 (by rw [hop]; decide)]
-  cases gate cx (cmdOfBytes frame) with
-  | false => rfl
-  | true =>
-    have : procOp cx cur (cmdOfBytes frame) = opShift cx cur (cmdOfBytes frame) := by
-      simp [procOp, hop, APPEND, SET, UNSET, INCR, SHIFT]
-    simp only [if_true, this]
-    exact opShift_no_panic cx cur _ off hoff hfit
+/-- Frames shorter than 6 bytes are refused (`NewLockCommandDataFromOriginBytes` returns nil). -/
+theorem short_frame_refused (frame ex : Bytes) (h : frame.length < 6) : parseFrame frame ex = none := by
+  rcases frame with _ | ⟨a, _ | ⟨b, _ | ⟨c, _ | ⟨e, _ | ⟨b4, _ | ⟨b5, t⟩⟩⟩⟩⟩⟩ <;> simp [parseFrame] at h ⊢
+  omega
 
-/-- … and SHIFT by a positive count beyond the value length ALWAYS panics (not only for counts up to the frame length). -/
-theorem shift_beyond_length_panics (cx : Ctx) (x : Cell) (c : Cmd) (off : Nat) (hoff : cmdOff c = .ok off)
-    (hd : x.hasData = true) (hpos : 0 < readAt c.data off 4) (hbeyond : x.data.length < cellOff x.data + readAt c.data off 4) :
-    opShift cx (some x) c = .error ⟨.shiftBounds⟩ :=
-  opShift_beyond_panics cx x c off hoff hd hpos hbeyond
-
-/-- the value offset: readable without panic iff no property flag or ≥ 8 bytes -/
-theorem no_panic_value_offset (c : Cmd) (h : hasFlag c.flag fPROP = false ∨ 8 ≤ c.data.length) : isPanic (cmdOff c) = false := by
-  rcases h with h | h
-  · simp [cmdOff, h, pure, Except.pure, isPanic]
-  · obtain ⟨off, ho⟩ := cmdOff_ok_of_len c h; rw [ho]; rfl
-
-/-! ### concrete panic witnesses (executable model, `decide`) -/
-
-/-- INCR with a 4-byte operand on a key without cell: nil receiver. -/
-theorem incr_short_operand_no_cell_panics :
-    panicSite (processFrame cx0 none [6,0,0,0, 2,1, 1,0,0,0]) = some .incrNilCell := by decide
-
-/-- SET "abc"; SHIFT 4. -/
-theorem shift_beyond_length_witness_panics :
-    panicSite (runAll cx0 none [[5,0,0,0, 0,0, 0x61,0x62,0x63], [6,0,0,0, 4,1, 4,0,0,0]]) = some .shiftBounds := by decide
-
-/-- property flag on a 6-byte frame (APPEND onto an existing value; also INCR / SHIFT / PUSH / POP / PIPELINE). -/
-theorem property_flag_short_frame_panics :
-    panicSite (runAll cx0 none [[3,0,0,0, 0,0, 0x61], [2,0,0,0, 3,0x10]]) = some .cmdValueOffset
-    ∧ panicSite (processFrame cx0 none [2,0,0,0, 2,0x10]) = some .cmdValueOffset
-    ∧ panicSite (processFrame cx0 none [2,0,0,0, 6,0x10]) = some .cmdValueOffset := by decide
-
-/-- property length pointing beyond the frame: PUSH, APPEND (onto a value), PIPELINE. -/
-theorem property_length_beyond_frame_panics :
-    panicSite (processFrame cx0 none [4,0,0,0, 7,0x10, 200,0]) = some .pushBounds
-    ∧ panicSite (runAll cx0 none [[3,0,0,0, 0,0, 0x61], [4,0,0,0, 3,0x10, 200,0]]) = some .appendBounds
-    ∧ panicSite (processFrame cx0 none [4,0,0,0, 6,0x10, 200,0]) = some .pipelineBuf := by decide
-
-/-- PIPELINE whose body ends inside a sub-frame length, and PIPELINE with a sub-frame shorter than 6 bytes. -/
-theorem pipeline_malformed_subframe_panics :
-    panicSite (processFrame cx0 none [4,0,0,0, 6,0, 1,2]) = some .pipelineLen
-    ∧ panicSite (processFrame cx0 none [7,0,0,0, 6,0, 1,0,0,0,0]) = some .frameHdr := by decide
-
-/-- SET of an array-flagged value whose element length (255) exceeds the cell, then POP 1. -/
-theorem pop_malformed_array_panics :
-    panicSite (runAll cx0 none [[7,0,0,0, 0,2, 255,0,0,0, 9], [6,0,0,0, 8,1, 1,0,0,0]]) = some .popSlice := by decide
-
-/-- the recursion budget of the model is never the cause in any witness above; on single frames `proc` is given fuel ≥ 1 -/
-example : panicSite (processFrame cx0 none [2,0,0,0, 6,0]) = none := by decide
+/-! ### the former panic witnesses (one per repaired defect) now return — regression witnesses by `decide` -/
+theorem former_panic_witnesses_return :
+    -- frame shorter than 6 (570db92): refused
+    parseFrame [0,0,0,0] [] = none ∧ isPanic (processFrame cx0 none [0,0,0,0]) = false
+    -- INCR, 4-byte operand, no cell (076286b)
+    ∧ isPanic (processFrame cx0 none [6,0,0,0, 2,1, 1,0,0,0]) = false
+    -- SET "abc"; SHIFT 4 (f7f91cc)
+    ∧ isPanic (runAll cx0 none [[5,0,0,0, 0,0, 0x61,0x62,0x63], [6,0,0,0, 4,1, 4,0,0,0]]) = false
+    -- property flag on a 6-byte frame; property length beyond the frame: PUSH / APPEND / PIPELINE (da807c1): refused
+    ∧ parseFrame [2,0,0,0, 3,0x10] [] = none ∧ parseFrame [4,0,0,0, 7,0x10, 200,0] [] = none
+    ∧ parseFrame [4,0,0,0, 3,0x10, 200,0] [] = none ∧ parseFrame [4,0,0,0, 6,0x10, 200,0] [] = none
+    -- PIPELINE ending inside a sub-frame length (639fbf7); PIPELINE with a 5-byte sub-frame (570db92)
+    ∧ okVal (processFrame cx0 none [4,0,0,0, 6,0, 1,2]) = some .none ∧ okVal (processFrame cx0 none [7,0,0,0, 6,0, 1,0,0,0,0]) = some .none
+    -- array-flagged SET with element length 255, then POP 1 (f897b3e)
+    ∧ isPanic (runAll cx0 none [[7,0,0,0, 0,2, 255,0,0,0, 9], [6,0,0,0, 8,1, 1,0,0,0]]) = false := by
+  decide
 
 end Slock.C13V
